@@ -92,7 +92,9 @@ nextPattern:
 		case consts.RoutingDomainKey_Keyword:
 			// Only use ac automaton for "keyword" matching to save memory.
 			for _, r := range []byte(d) {
-				if !ahocorasick.IsValidChar(r) {
+				// '^' and '$' are the head and tail marks MatchDomainBitmap puts around the name:
+				// in a keyword they would not mean "contains" (a keyword "$" would match every name).
+				if !ahocorasick.IsValidChar(r) || r == '^' || r == '$' {
 					n.log.Warnf("DomainMatcher: skip bad keyword domain: %v: unexpected char: %v", d, string(r))
 					continue nextPattern
 				}
